@@ -269,8 +269,13 @@ impl<P: TravellingSalespersonProblem> Component<P> for MinMaxPheromoneUpdate {
         let route = individual.solution();
         let delta = 1.0 / objective;
         for (&a, &b) in route.iter().zip(route.iter().skip(1)) {
-            pm[a][b] = (pm[a][b] + delta).clamp(self.min_pheromones, self.max_pheromones);
-            pm[b][a] = (pm[b][a] + delta).clamp(self.min_pheromones, self.max_pheromones);
+            pm[a][b] += delta;
+            pm[b][a] += delta;
+        }
+
+        // Keep all trails within the bounds, including the ones that only evaporated.
+        for x in &mut pm.inner {
+            *x = x.clamp(self.min_pheromones, self.max_pheromones);
         }
 
         Ok(())
